@@ -196,8 +196,8 @@ func MkdirAll(fs FS, path string, perm FileMode) error {
 	if !ValidPath(path) {
 		return &PathError{Op: "mkdirall", Path: path, Err: ErrInvalid}
 	}
-	for i := 0; i < len(path); i++ {
-		if path[i] == '/' {
+	for i := 0; i <= len(path); i++ {
+		if i == len(path) || path[i] == '/' {
 			err := Mkdir(fs, path[:i], perm)
 			if err != nil {
 				pathErr, ok := err.(*PathError)
@@ -214,7 +214,7 @@ func MkdirAll(fs FS, path string, perm FileMode) error {
 			}
 		}
 	}
-	return Mkdir(fs, path, perm)
+	return nil
 }
 
 // Remove removes a file with fs.Remove(). Fails with a not implemented error if it's not a RemoveFS.
